@@ -8,10 +8,21 @@ input, on the REAL Extractor: coverage(), incremental_coverage(),
 full_incremental_coverage(), n_examples().  Oracle: independent recount with
 `re` (mc/models/cov_spec.py); incremental coverage is *walked* in the order
 the implementation returned, so tie-breaking is not re-implemented.
+
+Round 3 dimensions: the FORM of the examples argument (layer `forms`: tuple,
+generator, iterator, map, deque, dict view, set, OrderedDict, defaultdict,
+Series, ndarray; through Extractor(), extract(as_object=True), bytes +
+encoding and Extractor(extract=False).extract()); many distinct examples
+under the default Size (layer `big`: either side of do_all = 100 and
+do_all_exceptions = 4000); E3 histories on ONE Extractor object (layer
+`hist`: queries / change of the result / queries: the figures must describe
+the result the object holds now).
 """
+import collections
 import contextlib
 import io
 import itertools
+import json
 import re
 
 from mc.engine import Check, Res
@@ -100,6 +111,78 @@ A_ZERO3 = ['', 'a', 'A', '1', 'a1', 'ab', '-', 'a-b', 'a b', ' a', 'é', '12',
 PRUNE_OPTS = [{'max_patterns': 1}, {'min_strings_per_pattern': 2},
               {'max_patterns': 2, 'tag': True}]
 
+# (f) the FORM of the examples argument: everything Extractor() / extract()
+# iterate like a list must give the figures of the list form (recounted from
+# the supplied multiset); one-shot iterables included
+SEQ_FORMS = ['tuple', 'gen', 'iter', 'map', 'deque', 'values', 'series',
+             'ndarray']
+NO_REPEAT_FORMS = ['set', 'frozenset', 'keys']
+MAP_FORMS = ['ordereddict', 'defaultdict']
+ALL_FORMS = (SEQ_FORMS + NO_REPEAT_FORMS + MAP_FORMS
+             + ['x:tuple', 'x:gen', 'x:iter', 'x:ordereddict',
+                'xb:tuple', 'xb:gen', 'xb:iter', 'xb:map', 'xb:ordereddict',
+                'm:list', 'm:dict', 'm:gen'])
+
+# (g) many distinct examples under the DEFAULT Size (do_all = 100,
+# do_all_exceptions = 4000): K distinct strings either side of both constants
+BIG_KS = (100, 101, 200, 4000, 4001)
+BIG_FAMILIES = ['one-shape', 'two-shapes', 'three-shapes-repeats']
+# option points of the big layer: default; no sampling (size=0); tag + vlf
+BIG_OPTS = [{}, {'size': 0}, {'tag': True, 'variableLengthFrags': True},
+            {'strip': True, 'remove_empties': True}]
+
+
+def big_examples(fam, K):
+    """-> list of (string, frequency), K distinct strings of cheap shapes"""
+    if fam == 'one-shape':
+        return [('k%04d' % i, 1) for i in range(K)]
+    if fam == 'two-shapes':
+        h = K // 2
+        return [('k%04d' % i, 1) for i in range(h)] + \
+            [('AB-%d-x' % (1000 + i), 1) for i in range(K - h)]
+    if fam == 'three-shapes-repeats':
+        out = []
+        for i in range(K):
+            if i % 3 == 0:
+                out.append(('k%04d' % i, 1 + i % 2))
+            elif i % 3 == 1:
+                out.append(('%04d.%d' % (i, i % 7), 3))
+            else:
+                out.append((' id%04d ' % i, 1))
+        return out
+    raise KeyError(fam)
+
+
+# (h) histories on ONE Extractor object: queries, then the result is changed
+# (a setting + extract() again, or results.remove()), then queries again
+H_ALPHA2 = A_ZERO3
+H_ALPHA3 = ['a', 'A', '1', 'a1', 'ab', '-', 'a-b', 'a b', '12', 'é']
+QUERIES = [(q, d) for q in ('coverage', 'incremental', 'full', 'n_examples')
+           for d in (False, True)]
+WARMUPS = [[]] + [[q] for q in QUERIES] + [list(QUERIES)]
+SETTINGS = [('variableLengthFrags', True), ('tag', True),
+            ('max_patterns', 1), ('min_strings_per_pattern', 2)]
+
+
+FORM_CLASS = {}
+for _f in ('gen', 'iter', 'map'):
+    FORM_CLASS[_f] = 'form:one-shot-iterator'
+for _f in ('tuple', 'deque', 'values', 'series', 'ndarray'):
+    FORM_CLASS[_f] = 'form:sequence-not-list'
+for _f in NO_REPEAT_FORMS:
+    FORM_CLASS[_f] = 'form:set-like'
+for _f in MAP_FORMS:
+    FORM_CLASS[_f] = 'form:dict-subclass'
+
+
+def short(kept, limit=40):
+    """(string, weight) pairs for a violation detail; long sets abridged"""
+    items = list(kept.items())
+    if len(items) <= limit:
+        return items
+    return items[:limit // 2] + [['... %d more ...' % (len(items) - limit),
+                                  0]] + items[-limit // 2:]
+
 
 def eff_tier(tier):
     """thorough explores the full space under PYTHONHASHSEED=0 and repeats
@@ -138,7 +221,18 @@ class C18(Check):
             'x 4 figures; overlap layer: one case per (ordered expression '
             'list of <= 3 from 10, set of <= 3 strings from 8); non-trivial = '
             'at least two expressions returned or some frequency > 1 '
-            '(overlap layer: some string matched by two expressions)')
+            '(overlap layer: some string matched by two expressions); forms '
+            'layer: one case per (set of <= 3 strings, option point), inside '
+            'every frequency vector over {1,2} x 25 (form, route) points '
+            '(larger sets: the points taken in turn); big layer: one case '
+            'per (K distinct examples for K in 100, 101, 200, 4000, 4001, '
+            'shape family, option point incl. size=0), list and dict form; '
+            'hist layer: one case per (set of 2-3 strings, option point), '
+            'inside 2 multisets x histories [0, 1 or all 8 queries] + one '
+            'change of the result (extract() again, 4 settings + extract(), '
+            'results.remove of each index, remove + dot-star) + all queries, '
+            'and every ordered pair of changes with all queries after each; '
+            'non-trivial = the change altered the expression list')
     assumptions = [
         'strings from the 30-string sub-alphabet A18 (pairs also over the '
         '104-string pair alphabet in thorough); <= 3 (thorough 4) distinct '
@@ -163,6 +257,31 @@ class C18(Check):
         'result: only n_examples is checked',
         'under a sampling Size the stored examples are the grown sample: all '
         'figures unspecified there (thorough only, counted and tagged)',
+        'default Size: by the documented meaning of do_all (100) and '
+        'do_all_exceptions (4000: "add in all failures up to this many", and '
+        'every example fails the empty first pass) all supplied examples are '
+        'used up to 4000 distinct kept examples, and always with size=0 / '
+        'False ("don\'t use sampling"): there every clause is a must.  Beyond '
+        '4000 "the number supplied" is unspecified (n_examples is documented '
+        'as the number of examples used); what remains a must there: the '
+        'examples used are supplied examples with their supplied '
+        'frequencies, and every figure is exact for them',
+        'the examples argument is documented as a list, a dictionary / '
+        'counter or a function; every other iterable that the unchanged code '
+        'iterates like a list (tuple, generator, iterator, map, deque, dict '
+        'views, set, frozenset, pandas Series, numpy array) and dict '
+        'subclasses are taken as supplying the same multiset; a form that is '
+        'refused with an exception is not a wrong figure (counted as '
+        'extract-raises)',
+        'histories on one object: extract() is public and documented as '
+        'callable manually, results.remove() is a public method, the '
+        'settings are plain attributes (variableLengthFrags, tag, '
+        'max_patterns, min_strings_per_pattern - those that __init__ merely '
+        'stores).  The statement speaks of the figures reported "for its '
+        'result": after a change they must describe the expressions the '
+        'object holds now (results.rex) and the examples it holds; after '
+        'remove / pruning settings the "sums to the total" clause is void; a '
+        'change that raises is not C18\'s matter (counted)',
         'rexpy\'s own expressions were pairwise disjoint on every explored '
         'input, so the layer "overlap" applies the same recount to the '
         'documented module-level functions rex_coverage / '
@@ -203,6 +322,17 @@ class C18(Check):
                     'overlapping and subsumed expressions'),
              ('routes', 'the same multiset through extract(as_object=True) '
                         'with list / dict / Counter, str and bytes+encoding'),
+             ('forms', 'the same multiset in every form of the examples '
+                       'argument: tuple, generator, iterator, map, deque, '
+                       'dict view, set, OrderedDict, defaultdict, Series, '
+                       'ndarray; Extractor(), extract(as_object), bytes + '
+                       'encoding, Extractor(extract=False).extract()'),
+             ('big', '100, 101, 200, 4000, 4001 distinct examples (default '
+                     'Size: do_all 100, do_all_exceptions 4000), 3 shape '
+                     'families x 4 option points'),
+             ('hist', 'E3 on one Extractor object: queries, change of the '
+                      'result (setting + extract() again / results.remove), '
+                      'queries again; depth <= 2 changes'),
              ('overlap', 'rex_coverage / rex_incremental_coverage / '
                          'rex_full_incremental_coverage on overlapping '
                          'hand-made expression lists')]
@@ -218,7 +348,8 @@ class C18(Check):
         full = tier
         tier = eff_tier(tier)
         if tier != full and layer not in ('n1', 'n2', 'n3', 'overlap', 'meta',
-                                          'long', 'zero', 'nl', 'routes'):
+                                          'long', 'zero', 'nl', 'routes',
+                                          'forms', 'big', 'hist'):
             return
         allo = range(len(AB.OPTIONS))
         if layer == 'n1':
@@ -285,6 +416,47 @@ class C18(Check):
             for xs in itertools.combinations(NL_STRINGS[:16], 2):
                 yield {'x': list(xs), 'o': 0, 'F': 2, 'forms': ROUTES,
                        'alt': True}
+        elif layer == 'forms':
+            for s in A18:
+                for o in allo:
+                    yield {'x': [s], 'o': o, 'F': 2, 'forms': ALL_FORMS}
+            for o in (0, 3, 4):
+                for xs in itertools.combinations(A_ZERO3, 2):
+                    yield {'x': list(xs), 'o': o, 'F': 2, 'forms': ALL_FORMS}
+            # larger sets: the forms taken in turn (4 / 8 per case)
+            ai = 0
+            for xs in itertools.combinations(A18, 2):
+                if not all(x in A_ZERO3 for x in xs):
+                    yield {'x': list(xs), 'o': 0, 'F': 2, 'forms': ALL_FORMS,
+                           'alt': True, 'ai': ai}
+                    ai += 4
+            for xs in itertools.combinations(A_ZERO3, 3):
+                yield {'x': list(xs), 'o': 0, 'F': 2, 'forms': ALL_FORMS,
+                       'alt': True, 'ai': ai}
+                ai += 8
+            if tier == 'thorough':
+                for o in (1, 2, 5, 6, 7):
+                    for xs in itertools.combinations(A_ZERO3, 2):
+                        yield {'x': list(xs), 'o': o, 'F': 2,
+                               'forms': ALL_FORMS}
+        elif layer == 'big':
+            for K in BIG_KS:
+                for fi in range(len(BIG_FAMILIES)):
+                    for bo in range(len(BIG_OPTS)):
+                        if K >= 4000 and bo >= 2 and fi != 2 and \
+                                tier != 'thorough':
+                            continue
+                        yield {'k': 'big', 'K': K, 'fam': fi, 'bo': bo}
+        elif layer == 'hist':
+            for xs in itertools.combinations(H_ALPHA2, 2):
+                for o in (0, 3):
+                    yield {'k': 'hist', 'x': list(xs), 'o': o}
+            for xs in itertools.combinations(H_ALPHA3, 3):
+                yield {'k': 'hist', 'x': list(xs), 'o': 0}
+            if tier == 'thorough':
+                for xs in itertools.combinations(A18, 3):
+                    if not all(x in H_ALPHA3 for x in xs):
+                        yield {'k': 'hist', 'x': list(xs), 'o': 0}
         elif layer == 'overlap':
             th = tier == 'thorough'
             lists = [[p] for p in NL_FN_PATTERNS]
@@ -348,8 +520,12 @@ class C18(Check):
 
     def setup_worker(self, tier):
         import random
+        import numpy as np
+        import pandas as pd
         import tdda.rexpy.rexpy as orig
         self.random = random
+        self.np = np
+        self.pd = pd
         self.tier = tier
         self.src_path = orig.__file__
         with open(self.src_path, encoding='utf-8') as f:
@@ -389,6 +565,10 @@ class C18(Check):
         self.rexpy = self.fresh_module()
         if case.get('k') == 'fn':
             return self.run_fn(case)
+        if case.get('k') == 'big':
+            return self.run_big(case)
+        if case.get('k') == 'hist':
+            return self.run_hist(case)
         R = Res()
         xs, o, F = case['x'], case['o'], case['F']
         opts = dict(AB.OPTIONS[o])
@@ -399,12 +579,15 @@ class C18(Check):
         n = len(xs)
         self.reset()
         fmin = case.get('fmin', 1)
-        for fv in itertools.product(range(fmin, F + 1), repeat=n):
+        for j, fv in enumerate(itertools.product(range(fmin, F + 1),
+                                                 repeat=n)):
             if fmin == 0 and 0 not in fv:
                 continue            # all-positive vectors: other layers
             forms = case.get('forms')
             if isinstance(forms, list):
-                if case.get('alt'):
+                if 'ai' in case:
+                    forms = [forms[(case['ai'] + j) % len(forms)]]
+                elif case.get('alt'):
                     forms = [forms[sum(fv) % len(forms)]]
             elif forms == 2:
                 forms = ['list', 'dict']
@@ -415,24 +598,80 @@ class C18(Check):
                          case.get('size'))
         return R
 
+    def build(self, xs, fv, form, enc=None):
+        """-> (zero-argument factory of the examples argument in the given
+        form, JSON-able description) for the multiset xs x fv; one-shot forms
+        (generator, iterator, map) are built anew by every factory call.
+        Forms that cannot carry repeats (set, frozenset, keys) are only used
+        with all frequencies 1 (the caller sees to that)."""
+        import collections
+        conv = (lambda s: s.encode(enc)) if enc else (lambda s: s)
+        pairs = [(conv(s), f) for s, f in zip(xs, fv)]
+        seq = [conv(s) for s in AB.round_robin(xs, fv)]
+        shown_seq = AB.round_robin(xs, fv)
+        shown_map = dict(zip(xs, fv))
+        if form == 'list':
+            return (lambda: list(seq)), shown_seq
+        if form == 'list-none':
+            return ((lambda: seq[:1] + [None] + seq[1:] + [None]),
+                    shown_seq[:1] + [None] + shown_seq[1:] + [None])
+        if form == 'dict':
+            return (lambda: dict(pairs)), {'dict': shown_map}
+        if form == 'counter':
+            return (lambda: collections.Counter(dict(pairs))), \
+                {'counter': shown_map}
+        if form == 'ordereddict':
+            return (lambda: collections.OrderedDict(reversed(pairs))), \
+                {'OrderedDict, reversed': shown_map}
+        if form == 'defaultdict':
+            def mk():
+                d = collections.defaultdict(int)
+                d.update(pairs)
+                return d
+            return mk, {'defaultdict(int)': shown_map}
+        if form == 'tuple':
+            return (lambda: tuple(seq)), {'tuple': shown_seq}
+        if form == 'gen':
+            return (lambda: (s for s in seq)), {'generator': shown_seq}
+        if form == 'iter':
+            return (lambda: iter(list(seq))), {'iter(list)': shown_seq}
+        if form == 'map':
+            return (lambda: map(lambda s: s, seq)), {'map object': shown_seq}
+        if form == 'deque':
+            return (lambda: collections.deque(seq)), {'deque': shown_seq}
+        if form == 'set':
+            return (lambda: set(seq)), {'set': shown_seq}
+        if form == 'frozenset':
+            return (lambda: frozenset(seq)), {'frozenset': shown_seq}
+        if form == 'keys':
+            return ((lambda: collections.OrderedDict(
+                (s, None) for s in seq).keys()),
+                {'dict.keys()': shown_seq})
+        if form == 'values':
+            return ((lambda: dict(enumerate(seq)).values()),
+                    {'dict.values()': shown_seq})
+        if form == 'series':
+            return (lambda: self.pd.Series(list(seq), dtype=object)), \
+                {'pandas Series (object)': shown_seq}
+        if form == 'ndarray':
+            return (lambda: self.np.array(list(seq), dtype=object)), \
+                {'numpy array (object)': shown_seq}
+        raise KeyError(form)
+
     def one(self, R, xs, fv, form, o, opts, pruning, sampled, sizeidx):
-        n_none = 0
-        route, form0 = 'Extractor', form
+        n_none = 2 if form.endswith('list-none') else 0
+        route, form0, enc = 'Extractor', form, None
         if form.startswith('x:'):
             route, form = 'extract(as_object)', form[2:]
         elif form.startswith('xb:'):
             route, form = 'extract(bytes, encoding, as_object)', form[3:]
-        if form == 'list':
-            inp = AB.round_robin(xs, fv)
-        elif form == 'list-none':
-            inp = AB.round_robin(xs, fv)
-            inp = inp[:1] + [None] + inp[1:] + [None]
-            n_none = 2
-        elif form == 'counter':
-            import collections
-            inp = collections.Counter(dict(zip(xs, fv)))
-        else:
-            inp = dict(zip(xs, fv))
+            enc = 'utf-8'
+        elif form.startswith('m:'):
+            route, form = 'Extractor(extract=False).extract()', form[2:]
+        if form in NO_REPEAT_FORMS and max(fv) > 1:
+            return              # this form cannot carry the multiset
+        make, shown = self.build(xs, fv, form, enc)
+        inp = make()
         kw = dict(opts)
         if sampled:
             kw['size'] = self.rexpy.Size(**AB.SIZE_POINTS[sizeidx])
@@ -442,25 +681,25 @@ class C18(Check):
                 x = self.quiet(self.rexpy.Extractor, inp, **kw)
             elif route == 'extract(as_object)':
                 x = self.quiet(self.rexpy.extract, inp, as_object=True, **kw)
-            else:
-                if isinstance(inp, dict):
-                    binp = type(inp)(dict((k.encode('utf-8'), v)
-                                          for k, v in inp.items()))
-                else:
-                    binp = [k.encode('utf-8') for k in inp]
-                x = self.quiet(self.rexpy.extract, binp, encoding='utf-8',
+            elif enc:
+                x = self.quiet(self.rexpy.extract, inp, encoding=enc,
                                as_object=True, **kw)
+            else:
+                x = self.quiet(self.rexpy.Extractor, inp, extract=False, **kw)
+                self.quiet(x.extract)
         except Exception as e:
-            # whether extraction succeeds is C03/C13's business
+            # whether extraction succeeds is C03/C13's business; a form that
+            # is refused is not a wrong figure
             R.ev()
-            R.out('extract-raises:%s' % type(e).__name__)
+            R.out('extract-raises:%s:%s' % (type(e).__name__, form))
             return
         R.ev()
         unc0 = None
         if pruning:
             # is some example uncovered even without pruning (C03 matter)?
             try:
-                x0 = self.quiet(self.rexpy.Extractor, inp, **AB.OPTIONS[o])
+                x0 = self.quiet(self.rexpy.Extractor, make(),
+                                **AB.OPTIONS[o])
                 k0, _ = M.kept_examples(list(zip(xs, fv)))
                 r0 = list(x0.results.rex) if x0.results else []
                 t0, _ = M.match_table(r0, list(k0))
@@ -475,8 +714,20 @@ class C18(Check):
         rem = bool(opts.get('remove_empties'))
         kept, info = M.kept_examples(list(zip(xs, fv)), strip, rem)
         sub = {'freqs': fv, 'form': form0}
-        base = {'route': route, 'input': inp if form.startswith('list')
-                else {form: dict(inp)}, 'options': opts}
+        base = {'route': route, 'input': shown, 'options': opts}
+        m = self.measure(R, x, kept, info, n_none, pruning)
+        if m is not None:
+            fclass = FORM_CLASS.get(form)
+            if fclass is None and route.startswith('Extractor(extract=False'):
+                fclass = 'route:manual-extract'
+            self.flush(R, m[0], m[1], m[2], base, sub, sampled, pruning, o,
+                       prefix=fclass + ':' if fclass else '')
+
+    def measure(self, R, x, kept, info, n_none, pruning):
+        """every figure of the Extractor x against the recount over `kept`
+        for the expressions x.results.rex holds NOW; -> (violations,
+        uncovered examples, expressions) or None (expressions do not
+        compile)"""
         viols = []
 
         def bad(figure, clause, **d):
@@ -505,20 +756,19 @@ class C18(Check):
         if not kept or rexes is None:
             R.out('no-result:kept=%d' % len(kept))
             if kept and rexes is None:
-                bad('no-result', 'figures-for-result', kept=list(kept.items()))
-            self.flush(R, viols, [], [], base, sub, sampled, pruning, o)
-            return
+                bad('no-result', 'figures-for-result', kept=short(kept))
+            return viols, [], []
         try:
             tables = M.match_tables(rexes, list(kept))
         except re.error:
             R.unspec += 1
             R.out('rex-does-not-compile')
-            return
+            return None
         table = tables[0]                       # strict reading
         if len(tables) > 1:
             R.unspec += 1                       # figures may follow either
         unc = M.uncovered(table, kept)
-        if len(rexes) >= 2 or max(fv) > 1:
+        if len(rexes) >= 2 or max(kept.values()) > 1:
             R.nontrivial = True
         overlap = any(sum(M.coverage(t, kept, True))
                       > len(kept) - len(M.uncovered(t, kept)) for t in tables)
@@ -530,7 +780,7 @@ class C18(Check):
             if all(errs):
                 viols.extend(errs[0])
 
-        kl = list(kept.items())
+        kl = short(kept)
         # ---- coverage
         for dedup in (False, True):
             got = list(self.quiet(x.coverage, dedup=dedup))
@@ -627,7 +877,190 @@ class C18(Check):
             ':zero-incr-omitted' if omitted else '',
             ':uncovered' if unc else '') +
             (':two-readings' if len(tables) > 1 else ''))
-        self.flush(R, viols, unc, rexes, base, sub, sampled, pruning, o)
+        return viols, unc, rexes
+
+    # ------------------------------------------------ (g) many examples
+    def run_big(self, case):
+        R = Res()
+        K, fam = case['K'], BIG_FAMILIES[case['fam']]
+        bopts = dict(BIG_OPTS[case['bo']])
+        supplied = big_examples(fam, K)
+        xs = [s for s, f in supplied]
+        fv = [f for s, f in supplied]
+        kept, info = M.kept_examples(supplied, bool(bopts.get('strip')),
+                                     bool(bopts.get('remove_empties')))
+        may_sample = M.sampling_applies(len(kept), bopts.get('size'))
+        self.reset()
+        for form in ('list', 'dict'):
+            make, _ = self.build(xs, fv, form)
+            try:
+                x = self.quiet(self.rexpy.Extractor, make(), **bopts)
+            except Exception as e:
+                R.ev()
+                R.out('extract-raises:%s' % type(e).__name__)
+                continue
+            R.ev()
+            base = {'route': 'Extractor',
+                    'input': '%s form of family %s, %d distinct strings '
+                             '(%s ... %s), %d supplied'
+                             % (form, fam, K, supplied[:3], supplied[-2:],
+                                sum(fv)),
+                    'options': bopts}
+            sub = {'form': form}
+            self._unc0 = None
+            if not may_sample:
+                m = self.measure(R, x, kept, info, 0, False)
+                R.out('big:%s:K=%d:all-used' % (fam, K))
+                if m is not None:
+                    self.flush(R, m[0], m[1], m[2], base, sub, False, False,
+                               0)
+                continue
+            # More distinct examples than Size.do_all_exceptions: rexpy works
+            # on a sample plus the failures; "the number supplied" is then
+            # unspecified.  What stays a must: the figures are exact for the
+            # examples rexpy used, and those are supplied examples with their
+            # supplied frequencies.
+            R.unspec += 1
+            used = collections.OrderedDict(zip(x.examples.strings,
+                                               x.examples.freqs))
+            wrong = [(s, f) for s, f in used.items() if kept.get(s) != f]
+            R.out('big:%s:K=%d:sampled:used=%s' % (
+                fam, K, 'all' if len(used) == len(kept) else 'fewer'))
+            if wrong or len(used) != len(x.examples.strings):
+                R.viol('sampled:used-examples-are-not-supplied-examples',
+                       'n-examples-equals-supplied',
+                       dict(base, wrong=wrong[:10]), sub)
+                continue
+            uinfo = {'n_supplied': sum(used.values()),
+                     'n_distinct_supplied': len(used)}
+            m = self.measure(R, x, used, uinfo, 0, False)
+            if m is not None and m[0]:
+                if m[1]:
+                    R.unspec += 1       # uncovered examples: C03's matter
+                else:
+                    self.emit(R, 'sampled:', m[0], base, sub)
+        return R
+
+    # ------------------------------------ (h) E3: one object, its history
+    def query(self, x, q):
+        name, dedup = q
+        if name == 'coverage':
+            return self.quiet(x.coverage, dedup=dedup)
+        if name == 'incremental':
+            return self.quiet(x.incremental_coverage, dedup=dedup)
+        if name == 'full':
+            return self.quiet(x.full_incremental_coverage, dedup=dedup)
+        return self.quiet(x.n_examples, dedup)
+
+    def mutate(self, x, mut, st):
+        """apply one change of the result to the Extractor x; st carries
+        whether the 'sums to the total' clause is void for the result x holds
+        afterwards; -> False if the change cannot be applied"""
+        kind, arg = mut
+        if kind == 'reextract':
+            self.quiet(x.extract)
+            st['removed'] = False
+        elif kind == 'set':
+            setattr(x, arg[0], arg[1])
+            if arg[0] in ('max_patterns', 'min_strings_per_pattern'):
+                st['pruned'] = True
+            self.quiet(x.extract)
+            st['removed'] = False
+        else:
+            i, star = arg
+            if x.results is None or i >= len(x.results.rex):
+                return False
+            self.quiet(x.results.remove, {i}, add_dot_star=star)
+            st['removed'] = True
+        return True
+
+    def run_hist(self, case):
+        R = Res()
+        xs, o = case['x'], case['o']
+        opts = dict(AB.OPTIONS[o])
+        n = len(xs)
+        strip = bool(opts.get('strip'))
+        rem = bool(opts.get('remove_empties'))
+        seen_sigs = set()
+        states = set()
+        for mi, (fv, form) in enumerate((([1] * n, 'list'),
+                                         ([1 + i % 2 for i in range(n)],
+                                          'dict'))):
+            kept, info = M.kept_examples(list(zip(xs, fv)), strip, rem)
+            make, shown = self.build(xs, fv, form)
+            self.reset()
+
+            def fresh():
+                R.ev()
+                return self.quiet(self.rexpy.Extractor, make(), **opts)
+            try:
+                x0 = fresh()
+                rex0 = list(x0.results.rex) if x0.results else None
+                if rex0 is None:
+                    R.out('hist:no-result')
+                    continue
+                if M.uncovered(M.match_tables(rex0, list(kept))[0], kept):
+                    R.out('hist:skipped:uncovered-example')   # C03's matter
+                    continue
+            except Exception as e:
+                R.out('hist:extract-raises:%s' % type(e).__name__)
+                continue
+            muts = [('reextract', None)]
+            muts += [('set', sv) for sv in SETTINGS]
+            if len(rex0) >= 2:
+                muts += [('remove', (i, False)) for i in range(len(rex0))]
+            muts += [('remove', (0, True))]
+            hists = [(w, [m]) for w in WARMUPS for m in muts]
+            if mi == 0:
+                hists += [([], [m1, m2]) for m1 in muts for m2 in muts]
+            for warm, ms in hists:
+                x = fresh()
+                for q in warm:
+                    self.query(x, q)
+                st = {'pruned': False, 'removed': False}
+                done = []
+                for m in ms:
+                    before = list(x.results.rex) if x.results else None
+                    try:
+                        if not self.mutate(x, m, st):
+                            break
+                    except Exception as e:
+                        # whether a second extraction succeeds is not C18's
+                        R.out('hist:change-raises:%s:%s'
+                              % (m[0], type(e).__name__))
+                        break
+                    done.append(m)
+                    R.transitions += 1
+                    after = list(x.results.rex) if x.results else None
+                    if after != before:
+                        R.nontrivial = True
+                    states.add(json.dumps([mi, after, st['pruned'],
+                                           st['removed']]))
+                    r = self.measure(R, x, kept, info, 0,
+                                     st['pruned'] or st['removed'])
+                    if r is None or not r[0]:
+                        continue
+                    kind = ('results.remove' if m[0] == 'remove'
+                            else 'second-extract')
+                    prefix = 'history:after-%s:' % kind
+                    key = (prefix, tuple(sorted(set(v[0].split(':')[0]
+                                                    for v in r[0]))))
+                    if key in seen_sigs:
+                        continue
+                    seen_sigs.add(key)
+                    base = {'route': 'one Extractor object',
+                            'input': shown, 'options': opts,
+                            'queries_before': [list(q) for q in warm],
+                            'changes': [list(d) for d in done],
+                            'result_before': before, 'result_now': after}
+                    self.emit(R, prefix, r[0], base,
+                              {'multiset': mi, 'warm': [list(q) for q in warm],
+                               'changes': [list(d) for d in done]},
+                              scoped=False)
+        R.states = len(states)
+        R.out('hist:states=%d:%s' % (min(len(states), 30),
+                                     'differs' if seen_sigs else 'same'))
+        return R
 
     def run_fn(self, case):
         """the documented module-level functions on overlapping lists"""
@@ -733,7 +1166,8 @@ class C18(Check):
                 omitted += len(ps) - len(keys)
         return fviols, omitted, over, unc
 
-    def flush(self, R, viols, unc, rexes, base, sub, sampled, pruning, o):
+    def flush(self, R, viols, unc, rexes, base, sub, sampled, pruning, o,
+              prefix=''):
         if not viols:
             return
         if sampled:
@@ -753,13 +1187,15 @@ class C18(Check):
                 R.viol('uncovered-example:%s' % cls, clause, dd,
                        dict(sub, figure=figure))
             return
-        self.emit(R, '', viols, base, sub)
+        self.emit(R, prefix, viols, base, sub, scoped=not prefix)
 
     @staticmethod
-    def emit(R, prefix, viols, base, sub):
+    def emit(R, prefix, viols, base, sub, scoped=True):
         """one violation per figure family; the signature says which figure
         (coverage / incremental / full / n_examples) and whether the figures
-        that count repeats, the de-duplicated ones, or both are wrong"""
+        that count repeats, the de-duplicated ones, or both are wrong (the
+        latter not when the prefix already names the root cause: argument
+        form, history step)"""
         fams = {}
         for figure, clause, d in viols:
             fams.setdefault(figure.split(':')[0], []).append(
@@ -774,7 +1210,8 @@ class C18(Check):
             dd = dict(base)
             dd.update(vs[0][2])
             dd['failed'] = sorted(set(f for f, c, d in vs))
-            R.viol('%s%s:%s' % (prefix, fam, scope),
+            R.viol('%s%s:%s' % (prefix, fam, scope) if scoped
+                   else '%s%s' % (prefix, fam),
                    '+'.join(sorted(set(c for f, c, d in vs))), dd,
                    dict(sub, figure=fam))
 
